@@ -118,6 +118,65 @@ def single_defs(f):
     return defs
 
 
+def _subst(tu, e, mapping, outmap, depth=0):
+    """copy of expression e of a helper with parameters replaced by the caller's argument trees, `*q` of an out-parameter by
+    the caller's variable, and calls of single-return unit functions inlined"""
+    import copy
+    if e is None:
+        return None
+    k = e['k']
+    if k == 'DeclRefExpr' and e['n'] in mapping:
+        return mapping[e['n']]
+    if k == 'UnaryOperator' and e.get('op') == '*':
+        q = F.strip(e['c'][0])
+        if q['k'] == 'DeclRefExpr' and q['n'] in outmap:
+            return {'k': 'DeclRefExpr', 'n': outmap[q['n']], 'dk': 'local', 'c': [], 'l': e.get('l')}
+    if k == 'CallExpr' and e.get('callee') in tu.funcs and depth < 3:
+        g = tu.funcs[e['callee']]
+        body = F.kids(g.body) if g.body is not None else []
+        if len(body) == 1 and body[0]['k'] == 'ReturnStmt' and F.kids(body[0]):
+            args = [_subst(tu, a, mapping, outmap, depth) for a in F.call_args(e)]
+            m2 = {prm['n']: a for prm, a in zip(g.params, args)}
+            return _subst(tu, F.kids(body[0])[0], m2, {}, depth + 1)
+    r = dict(e)
+    if 'c' in e and e['c'] is not None:
+        r['c'] = [_subst(tu, c, mapping, outmap, depth) if isinstance(c, dict) else c for c in e['c']]
+    return r
+
+
+def outparam_defs(tu, g, defs_all):
+    """definitions of the caller's locals that a helper fills through `&local` arguments: v := helper's `*p = E` with the
+    arguments substituted"""
+    for n in g.walk():
+        if n['k'] != 'CallExpr' or n.get('callee') not in tu.funcs or n.get('callee') == '_MIR_set_code':
+            continue
+        h = tu.funcs[n['callee']]
+        if h.body is None:
+            continue
+        args = F.call_args(n)
+        if len(args) != len(h.params):
+            continue
+        outmap, mapping = {}, {}
+        for prm, a in zip(h.params, args):
+            a0 = F.strip(a)
+            if a0['k'] == 'UnaryOperator' and a0.get('op') == '&' and F.strip(a0['c'][0])['k'] == 'DeclRefExpr':
+                outmap[prm['n']] = F.strip(a0['c'][0])['n']
+            else:
+                mapping[prm['n']] = a
+        if not outmap:
+            continue
+        stores = {}
+        for x in F.kids(h.body):
+            if x['k'] == 'BinaryOperator' and x['op'] == '=':
+                l = F.strip(x['c'][0])
+                if l['k'] == 'UnaryOperator' and l.get('op') == '*' and F.strip(l['c'][0])['k'] == 'DeclRefExpr' and F.strip(l['c'][0])['n'] in outmap:
+                    stores.setdefault(F.strip(l['c'][0])['n'], []).append(x['c'][1])
+        for q, v in outmap.items():
+            if len(stores.get(q, [])) == 1 and v not in defs_all:
+                defs_all[v] = [_subst(tu, stores[q][0], mapping, outmap)]
+    return defs_all
+
+
 def expand_last(defs_all, name, stop=()):
     """expression of the last definition of name, with earlier self-references expanded (len = f(len))"""
     return defs_all.get(name, [None])[-1]
@@ -194,8 +253,8 @@ def rf4(run):
                               '%s is called from %s; only {%s} may call it (code-memory protocol)' % (callee, g, ', '.join(sorted(allowed))),
                               line=l)
     # (c) window coverage at each caller of _MIR_set_code
-    holder_rule(run, rule, tu)
-    for cname in sorted(WHO_MAY_CALL['_MIR_set_code'] - {'add_code'}):
+    hr = holder_rule(run, rule, tu)
+    for cname in sorted(WHO_MAY_CALL['_MIR_set_code'] - (set() if hr == 'generic' else {'add_code'})):
         g = tu.funcs.get(cname)
         if g is None:
             run.analysis_broken(rule, 'caller %s of _MIR_set_code vanished' % cname)
@@ -205,7 +264,7 @@ def rf4(run):
         for call in calls:
             a = F.call_args(call)
             start, ln, base, nloc, relocs, rsize = a[1], a[2], a[3], a[4], a[5], a[6]
-            defs_all = single_defs(g)
+            defs_all = outparam_defs(tu, g, single_defs(g))
             # maximal offset written: reloc.offset = K (single reloc) or the max_offset idiom
             off_hi = None
             for n in g.walk():
@@ -257,6 +316,35 @@ def rf4(run):
             cover_hi = nonneg(end_lo.add(w_hi, -1))
             cover_lo = nonneg(bl.add(su, -1))
             ok = cover_hi and cover_lo
+            for v_ in (start, ln):
+                v0 = F.strip(v_)
+                if v0['k'] == 'DeclRefExpr' and v0.get('dk') == 'local' and v0['n'] not in defs_all:
+                    raise F.AnalysisBroken('%s: the window variable %s has no definition the rule can follow' % (cname, v0['n']))
+            # the window does not reach past the page that holds the last byte written: end <= last written byte + page - 1
+            end_hi = startsym.add(lu)
+            if keep:
+                s_ = F.src(start)
+                coef = end_hi.t.pop(s_, 0)
+                if coef > 0:
+                    end_hi = end_hi.add(su, coef)
+                elif coef < 0:
+                    end_hi = end_hi.add(sl, coef)
+            w_lo = bl.add(off_hi).add(size_l)
+            slack = w_lo.add(end_hi, -1)
+            page_atoms = [a_ for a_ in list(slack.t) + list(end_hi.t) if 'page_size' in a_]
+            pa = page_atoms[0] if page_atoms else 'page_size'
+            slack = slack.add(Lin({pa: 1}, -1))
+            # page_size >= 1: a positive coefficient contributes at least its value
+            if slack.t.get(pa, 0) > 0:
+                slack = Lin({a_: v_ for a_, v_ in slack.t.items() if a_ != pa}, slack.c + slack.t[pa])
+            within = nonneg(slack)
+            run.ob(rule, ('window-upper', cname), within, {'caller': cname, 'window end <=': repr(end_hi), 'last byte written + 1 >=': repr(w_lo),
+                                                          'verdict': 'within the last written page' if within else 'MAY REACH THE NEXT PAGE'})
+            if not within:
+                run.violation(rule, g, 'protect window of %s reaches past the written page' % cname,
+                              'the write window passed to _MIR_set_code can end at [%s] while the last byte written is at [%s]: when the '
+                              'written bytes end exactly on a page boundary the window (and the protection change) covers the following '
+                              'page, which may hold the code of another context' % (end_hi, w_lo), line=call['l'])
             run.ob(rule, ('window', cname), ok, {'caller': cname, 'window end >=': repr(end_lo), 'last byte written <=': repr(w_hi),
                                                 'window start <=': repr(su), 'first byte written >=': repr(bl),
                                                 'verdict': 'covers' if ok else 'NOT SHOWN TO COVER'})
@@ -315,6 +403,9 @@ def holder_rule(run, rule, tu):
     basedef = defs.get(F.src(base), [None])[0] if base['k'] == 'DeclRefExpr' else None
     ok_base = basedef is not None and X is not None and F.src(F.strip(basedef)) == '%s->free' % X
     ok = ok_win and ok_base
+    if not ok_win:
+        # another window shape: judged by the generic coverage / upper-bound analysis like the other callers
+        return 'generic'
     run.ob(rule, ('window', 'add_code'), ok, {'caller': 'add_code', 'window': '(%s, %s)' % (F.src(start), F.src(ln)),
                                               'destination': '%s = %s' % (F.src(base), F.src(basedef) if basedef else '?'),
                                               'verdict': 'whole holder that owns the destination' if ok else 'NOT THE OWNING HOLDER'})
